@@ -481,7 +481,7 @@ func (e *EdgeQuery) findEdgesInternal(target distanceTarget, opts *queryOptions)
 	// a target that served an earlier call with a non-zero maxError, e.g.
 	// IsDistanceLess, would otherwise keep using it.
 	targetTakesMaxError := e.target.setMaxError(opts.maxError)
-	targetUsesMaxError := opts.maxError != target.distance().zero().chordAngle() && targetTakesMaxError
+	targetUsesMaxError := opts.maxError != 0 && targetTakesMaxError
 
 	// Note that we can't compare maxError and distanceLimit directly
 	// because one is a Delta and one is a Distance. Instead we subtract them.
@@ -524,8 +524,12 @@ func (e *EdgeQuery) addResult(r EdgeQueryResult) {
 }
 
 func (e *EdgeQuery) maybeAddResult(shape Shape, shapeID, edgeID int32) {
-	if _, ok := e.testedEdges[ShapeEdgeID{shapeID, edgeID}]; e.avoidDuplicates && !ok {
-		return
+	if e.avoidDuplicates {
+		key := ShapeEdgeID{shapeID, edgeID}
+		if _, ok := e.testedEdges[key]; ok {
+			return
+		}
+		e.testedEdges[key] = 1
 	}
 	edge := shape.Edge(int(edgeID))
 	dist := e.distanceLimit
